@@ -20,6 +20,8 @@ REQUIRED_COVER = [
     "export_import:abci-order,fig>0", "export_import:committed,fig>0",
     # the history-level statement spoke about a block that follows each of them, in a region where g matters
     "sequence:g<T,after=commit", "sequence:g>T,after=commit",
+    # a software-upgrade block (in-place store migrations before the fee market's BeginBlock) after a non-empty block
+    "upgrade:from=3,fig>0", "sequence:g<T,after=upgrade", "sequence:g>T,after=upgrade",
     "sequence:g<T,after=restart", "sequence:g<T,after=reinit", "sequence:g<T,after=export_import",
 ]
 
@@ -162,7 +164,7 @@ def run(c):
             o = json.loads(line)
             if o["ev"] != "reset":
                 steps += 1
-                if o["ev"] in ("restart", "reinit", "export_import"):
+                if o["ev"] in ("restart", "reinit", "export_import", "upgrade"):
                     nbound[o["ev"]] = nbound.get(o["ev"], 0) + 1
                     if o["ev"] not in sampled and o["post"]["bgw"] != "0":
                         sampled.add(o["ev"])
